@@ -240,8 +240,11 @@ class Ctx:
         if not m:
             raise Inconclusive("trace validation produced no verdict:\n" + out[-5000:])
         ln, reached, bad = int(m.group(1)), int(m.group(2)), int(m.group(3))
-        mf = re.search(r'"TRACE-FAILS", <<([^>]*)>>', out)
-        self.last_fails = [int(x) for x in mf.group(1).replace(" ", "").split(",") if x] if mf else ([bad] if bad else [])
+        # TLC pretty-prints long tuples over many lines: take every integer up to the closing >>
+        mf = re.search(r'"TRACE-FAILS",\s*<<([^>]*)>>', out)
+        self.last_fails = [int(x) for x in re.findall(r'-?\d+', mf.group(1))] if mf else []
+        if bad and bad not in self.last_fails:
+            self.last_fails.insert(0, bad)
         self.cov["states"] += res["distinct"]
         self.cov["transitions"] += res["generated"]
         accepted = (bad == 0 and reached == ln)
